@@ -16,7 +16,7 @@ struct C01 : Check {
 	}
 	std::vector<std::string> assumptions() const override {
 		return {"the probe (lbuf_get/lbuf_len) is tied to bytes: right after the read it must equal the file split at newlines",
-			"an empty buffer cannot be written (ex_region rejects it): the round trip of an empty file holds vacuously and is asserted as 'file untouched'"};
+			"an addressless :w of an empty buffer writes zero lines (the target ends up empty); a range on an empty buffer is rejected and compares nothing"};
 	}
 
 	static std::string gen_file(Rng &r, bool utf8_only, int tier, Json &note)
@@ -173,8 +173,13 @@ struct C01 : Check {
 		bool exists;
 		std::string got = c.file(path, &exists);
 		if (before.empty()) {
-			// an empty buffer cannot be written: the command is rejected, nothing is created or changed
-			c.count("empty_buffer_write_rejected");
+			// an addressless :w of an empty buffer writes zero lines: the target must exist and be empty;
+			// a range on an empty buffer addresses no line and is rejected (nothing to compare)
+			if (!m.boolean("whole")) { c.count("range_on_empty_buffer"); return; }
+			c.compared();
+			c.count("empty_buffer_writes_compared");
+			if (!exists || !got.empty())
+				c.violate("C01/write/not-truncated", "writing an empty buffer to " + path + " must leave an empty file; it " + (exists ? "holds " + std::to_string(got.size()) + " bytes" : "does not exist"));
 			return;
 		}
 		if (a < 1 || b > (long) before.size() || a > b) return;	// generator keeps ranges valid against its own estimate only
